@@ -129,7 +129,7 @@ class Choices:
 class Sim:
     def __init__(self, seed=0, replay=None, lenient=False, max_steps=2_000_000,
                  max_time=3600.0, p_switch=None, trace_files=None,
-                 p_preempt=0.0, max_preempt=0):
+                 p_preempt=0.0, max_preempt=0, trace_opcodes=False, p_preempt_store=0.0, trace_funcs=None):
         self.seed = seed
         self.choices = Choices(seed * 3 + 0, replay, lenient)
         self.entropy = random.Random(seed * 3 + 1)
@@ -157,6 +157,12 @@ class Sim:
         self.p_preempt = p_preempt
         self.max_preempt = max_preempt
         self.preemptions = 0
+        # bytecode-level pre-emption (inside one source statement, e.g. between the load and the store of
+        # `self.x += n`): in traced files a switch may happen right before an attribute / item / global STORE
+        self.trace_opcodes = trace_opcodes
+        self.trace_funcs = trace_funcs      # None: every function of the traced files; else a set of function names
+        self.p_preempt_store = p_preempt_store
+        self.store_points = 0
         self.involuntary = 0
         self.last_fault_time = 0.0
         self.task_exceptions = []
@@ -275,6 +281,22 @@ class Sim:
             if others:
                 self.preemptions += 1
                 self.involuntary += 1
+                self._switch(others[self.choose(len(others))])
+
+    def preempt_point_store(self):
+        """Called by the opcode tracer right before a STORE_ATTR / STORE_SUBSCR / STORE_GLOBAL."""
+        if self.aborting:
+            return
+        me = self.current
+        if me is None or me.ident != _get_ident():
+            return
+        self.store_points += 1
+        if self.preemptions < self.max_preempt and self.choose_bool(self.p_preempt_store):
+            others = [t for t in self.tasks if t.state == RUNNABLE and t is not me]
+            if others:
+                self.preemptions += 1
+                self.involuntary += 1
+                self.probes["preempted_before_store"] = self.probes.get("preempted_before_store", 0) + 1
                 self._switch(others[self.choose(len(others))])
 
     def _fail(self, exc):
@@ -552,14 +574,31 @@ class Sim:
                         sim.line_hook(tag, frame)
                     sim.preempt_point()
                 return local
+        elif self.trace_opcodes:
+            import dis
+            stores = frozenset(dis.opmap[n] for n in ("STORE_ATTR", "STORE_SUBSCR", "STORE_GLOBAL", "DELETE_SUBSCR",
+                                                      "DELETE_ATTR") if n in dis.opmap)
+
+            def local(frame, event, arg):
+                if event == "line":
+                    sim.preempt_point()
+                elif event == "opcode":
+                    if frame.f_code.co_code[frame.f_lasti] in stores:
+                        sim.preempt_point_store()
+                return local
         else:
             def local(frame, event, arg):
                 if event == "line":
                     sim.preempt_point()
                 return local
 
+        opc = bool(self.trace_opcodes)
+        funcs = self.trace_funcs
+
         def glob(frame, event, arg):
-            if frame.f_code.co_filename in files:
+            if frame.f_code.co_filename in files and (funcs is None or frame.f_code.co_name in funcs):
+                if opc:
+                    frame.f_trace_opcodes = True
                 return local
             return None
 
